@@ -153,6 +153,10 @@ def mon_conn(ops, impl):
     cap_wait, sendbuf = {}, 409600
     io_raised = []
     submitted, sent, given_up = {}, {}, set()
+    recv_dropped = set()
+    goaway_unread = []      # [octets queued after it, error code] of the peer's GOAWAYs not decoded yet
+    transport_event, ended_now = False, False
+    last_poll = None
     for i, (o, a) in enumerate(zip(ops, impl)):
         w = o.split(" ")
         if w[0] == "cn_new":
@@ -170,6 +174,10 @@ def mon_conn(ops, impl):
             cap_wait, sendbuf = {}, 409600
             io_raised = []
             submitted, sent, given_up = {}, {}, set()
+            recv_dropped = set()
+            goaway_unread = []
+            transport_event = False
+            last_poll = None
             for kv in w[2:]:
                 if kv.startswith("sendbuf="):
                     sendbuf = int(kv[8:])
@@ -193,9 +201,12 @@ def mon_conn(ops, impl):
             # (with the state the stream was in when the connection object was dropped)
             sstate = "-"
             if len(w) > 1 and w[1].isdigit() and int(w[1]) < len(slots):
-                for seg in gone_st.split("|"):
-                    if seg.startswith(f"S{slots[int(w[1])]}:"):
-                        sstate = seg.split(":", 1)[1].split(",")[0]
+                # (known finding Q1 can leave a second, handle-less entry with the same stream id: the handle's own
+                #  entry is the one that is referenced)
+                cands = [seg.split(":", 1)[1].split(",") for seg in gone_st.split("|") if seg.startswith(f"S{slots[int(w[1])]}:")]
+                held_ones = [f for f in cands if len(f) > 8 and f[8].isdigit() and int(f[8]) > 0]
+                if held_ones or cands:
+                    sstate = (held_ones or cands)[0][0]
             out.append((i, f"mon_cn afterend {w[0]} {_f(a, 'r=').split(':')[0]} {sstate}"))
         if not w[0].startswith("cn_") or not alive:
             continue
@@ -243,18 +254,30 @@ def mon_conn(ops, impl):
                 reg = any(PENDING_SLOT[w[0]] in f[-1] for f in segs)
                 out.append((i, f"mon_cn pendreg {w[0]} {int(reg)}"))
         # C15: how the connection future completes vs the peer's last GOAWAY
+        # (a GOAWAY counts once the endpoint has decoded it: the digest's U: segment is the number of queued octets
+        #  not decoded yet; a GOAWAY still unread when the endpoint closes for reasons of its own cannot be reported)
         if w[0] == "cn_peer":
+            nbytes = len(w[1]) // 2 if len(w) > 1 else 0
+            for g in goaway_unread:
+                g[0] += nbytes
             for f in (_f(a, "rx=").split(";") if _f(a, "rx=") != "-" else []):
                 if f.startswith("G:"):
-                    peer_goaway = (peer_goaway + "," if peer_goaway != "-" else "") + f.split(":")[3]
+                    goaway_unread.append([0, f.split(":")[3]])
+        useg = [seg[2:] for seg in st.split("|") if seg.startswith("U:")] if st not in ("-", "gone", "") else []
+        if useg and useg[0].isdigit():
+            while goaway_unread and int(useg[0]) <= goaway_unread[0][0]:
+                peer_goaway = (peer_goaway + "," if peer_goaway != "-" else "") + goaway_unread.pop(0)[1]
         if w[0] == "cn_poll" and not result_seen and (r == "done" or r.startswith("err:")):
             result_seen = True
             p = r.split(":")
             kind = "done" if r == "done" else ("goaway-remote" if len(p) >= 4 and p[1] == "goaway" and p[3] == "remote" else "other")
             out.append((i, f"mon_cn connresult {peer_goaway} {kind} {p[2] if kind == 'goaway-remote' else 0}"))
+            ended_now = True
         # C06: a poll nobody asked for must find nothing to write
         if "c" in _f(a, "wk=").split(",") and w[0] != "cn_poll":
             woken_since_poll = True
+        if w[0] in ("cn_eof", "cn_rderr", "cn_wrerr"):
+            transport_event = True
         if w[0] in INPUT_OPS:
             input_since_poll = True
         if w[0] == "cn_poll":
@@ -294,6 +317,8 @@ def mon_conn(ops, impl):
                 held[sid] -= int(w[2])
             elif w[0] == "cn_drop" and w[2] in ("body", "all", "fc"):
                 held.pop(sid, None)           # the handle is gone (or shared): stop tracking
+                if w[2] != "fc":
+                    recv_dropped.add(sid)
             if sid in held and held[sid] >= 0 and st not in ("-", "gone", ""):
                 out.append((i, f"mon_held {sid} {held[sid]} {st}"))
         if w[0] == "cn_keepfc" and len(w) > 1 and w[1].isdigit() and int(w[1]) < len(slots):
@@ -334,8 +359,41 @@ def mon_conn(ops, impl):
                         submitted.pop(sd, None)
                 elif p[0] == "R" and len(p) >= 2:
                     submitted.pop(int(p[1]), None)
+        if ended_now:
+            # C15: a connection that ends of its own accord (no transport failure or EOF) has said GOAWAY first
+            # (judged after the frames this very poll wrote)
+            ended_now = False
+            out.append((i, f"mon_cn ended {int(transport_event)}"))
+        # C06: at a drained, quiescent point no live stream with buffered DATA and window is left unscheduled
+        if w[0] == "cn_io" and budget_open and "unparsed=0" in r and ":rd=0:" in r and last_poll == ("pending", "-") \
+                and any(seg.startswith("K:Open") for seg in last_st_before.split("|")):
+            cseg = [seg for seg in last_st_before.split("|") if seg.startswith("C:")]
+            cf = cseg[0][2:].split(",") if cseg else []
+            if len(cf) >= 2 and cf[1].lstrip("-").isdigit():
+                for seg in last_st_before.split("|"):
+                    if seg.startswith("S") and not seg.startswith("SB:"):
+                        f = seg.split(":", 1)[1].split(",")
+                        if len(f) >= 10 and not f[0].startswith("Closed") and all(x.lstrip("-").isdigit() for x in (f[1], f[2], f[4])):
+                            out.append((i, f"mon_stalled {cf[1]} {f[1]} {f[2]} {f[4]} {int('o' in f[-1] or 'p' in f[-1])}"))
+        if w[0] == "cn_poll":
+            last_poll = (r, _f(a, "tx="))
+        elif w[0] != "cn_io":
+            last_poll = None
         if w[0] == "cn_io" and budget_open and "unparsed=0" in r:
-            out.append((i, "mon_cn quiescent"))
+            cseg = [seg for seg in last_st_before.split("|") if seg.startswith("C:")]
+            cf = cseg[0][2:].split(",") if cseg else []
+            conn_ok = any(seg.startswith("K:Open,0,") for seg in last_st_before.split("|")) and ":rd=0:" in r
+            if len(cf) >= 3 and cf[0].lstrip("-").isdigit() and cf[2].lstrip("-").isdigit() and conn_ok:
+                out.append((i, f"mon_cn quiescent {cf[2]} {cf[0]}"))
+                for seg in last_st_before.split("|"):
+                    if seg.startswith("S") and not seg.startswith("SB:"):
+                        f = seg.split(":", 1)[1].split(",")
+                        sid = seg[1:].split(":")[0]
+                        if len(f) >= 6 and f[1].lstrip("-").isdigit() and f[5].lstrip("-").isdigit() and not f[0].startswith("Closed") \
+                                and last_st_before.count(f"|S{sid}:") == 1:
+                            out.append((i, f"mon_cn quiescent_stream {sid} {f[5]} {f[1]} {int(int(sid) not in recv_dropped)}"))
+            else:
+                out.append((i, "mon_cn quiescent"))
         if w[0] == "cn_dropconn":
             alive = False
             gone = True
@@ -637,14 +695,21 @@ PROPS["C16"].update({"profiles": CONN_PROFILES + E2E_PROGRESS, "impl_only_prefix
 # tied to the real connection like the other connection-level properties; the codec-chain theorems stay in Props/C01.lean
 PROPS["C01"].update({
     "conn_compare": True, "monitor": mon_conn, "monitor_tagged": True,
-    "profiles": PROPS["C01"]["profiles"] + CONN_PROFILES,
-    "history_starts": ("e2e_run", "cn_new"),
+    "profiles": PROPS["C01"]["profiles"] + CONN_PROFILES + [
+        # `heads_survive_hpack` / `heads_survive_fragmentation` are theorems about the HPACK decoder model: its tie to the
+        # real decoder (whole blocks and every split into fragments, against the RFC reference) belongs to this check too
+        {"name": "hpackdec", "quick": 400, "thorough": 6000, "shards": {"quick": 1, "thorough": 2}},
+        {"name": "hpackdec-allsplits", "quick": 150, "thorough": 1500},
+    ],
+    "relations": {"spec_dec_block": rel_dec_block},
+    "unit_start": ("dec_newblock",), "unit_end": ("spec_dec_block",),
+    "history_starts": ("e2e_run", "cn_new", "dec_new", "spec_dec_new"),
 })
 # further theorem files delivered per property. A file is registered by hand, once the proof agent that owns it
 # reports a stable green build (files still being worked on must not be able to break a registered check):
 # candidates: ("C01", "C01Streams"), ("C08", "C08NoPanic"), ("C06", "C06Drain"), ("C15", "C15Cover"),
 #             ("C16", "C16Cover"), ("C09", "C09Cover"), ("C03", "C03Cover")
-REGISTERED_EXTRAS = [("C01", "C01Streams"), ("C08", "C08NoPanic")]
+REGISTERED_EXTRAS = [("C01", "C01Streams"), ("C08", "C08NoPanic"), ("C15", "C15Cover"), ("C06", "C06Drain"), ("C09", "C09Cover"), ("C03", "C03Cover")]
 for _pid, _extra in REGISTERED_EXTRAS:
     if _load_theorems(_extra):
         PROPS[_pid]["theorems"] = PROPS[_pid]["theorems"] + _load_theorems(_extra)
